@@ -1164,3 +1164,133 @@ func c05Round4(c *Ctx) {
 	c.Floor("C05.ledger", n, 5, "state removals in the staking state package (delegations, debonding queue, …)")
 }
 
+
+// c01Round4 (written after seeds C01r4/10..12 were missed by C01).
+func c01Round4(c *Ctx, ix *Index) {
+	// (a) seed 11 was reported by C09 only: whether a transaction is accepted must be a function of its bytes and the
+	// state — decodeTx returns a transaction only through the signature check, not through anything the node remembers.
+	if fn := c.needFn("C01.nondet", fnDecodeTx); fn != nil {
+		open := CallsTo(fn, "sigTx.Open", fnSTOpen, "")
+		c.SuccessRequiresEdges("C01.nondet", fn, "SignedTransaction.Open✓", mustSuccessEdges(open), "a transaction is accepted only if its signature verified on this node now (not because a node-local cache says it once did): replicas with different caches would otherwise disagree on the same block")
+	}
+	// (b) seed 10: the applications ask the node for the epoch of a *height* through ApplicationQueryState.GetEpoch,
+	// which reads the node's own database at that version. Only the heights every replica still has are asked for: the
+	// context's current or last height — never a height taken from block content (evidence, transactions), which a
+	// pruning replica may no longer have while an archive replica does.
+	n := 0
+	ownHeight := func(h ssa.Value) bool {
+		call, ok := h.(*ssa.Call)
+		if !ok {
+			return false
+		}
+		n := calleeNameCommon(&call.Call)
+		return n == "consensus/cometbft/api.(*Context).CurrentHeight" || n == "consensus/cometbft/api.(*Context).LastHeight"
+	}
+	for _, fn := range c.P.ModFuncs {
+		if fn.Blocks == nil || !strings.HasPrefix(short(fpkgPath(fn)), "consensus/cometbft/apps/") {
+			continue
+		}
+		for _, call := range callsIn(fn) {
+			nm := calleeName(call)
+			if nm != "consensus/cometbft/api.(ApplicationQueryState).GetEpoch" && nm != "consensus/cometbft/api.(ApplicationState).GetEpoch" {
+				continue
+			}
+			n++
+			args := call.Common().Args
+			h := args[len(args)-1]
+			c.Analysed[fname(fn)] = true
+			c.Check(ownHeight(h), "C01.local", fname(fn)+":GetEpoch is asked for the context's own height", c.P.InstrPos(call), "the height is ctx.CurrentHeight()/ctx.LastHeight()", "the application asks the node for the epoch at height "+vstr(h)+", which is not the height of its own context: the answer is read from the node's database at that version, which a replica that has pruned it cannot give (it fails the block) while a replica that keeps everything can — replicas disagree on the block")
+		}
+	}
+	c.Floor("C01.local", n, 6, "GetEpoch(height) calls in the applications")
+	// (c) seed 12: the cached results of the proposal being prepared are what the proposer later hands out for the
+	// block it proposed; they change only by being set as a whole, consumed in order, reset, or extended with the
+	// results of the system transactions that PrepareProposal appends — never filtered after execution (the executed
+	// transactions' effects are in the proposal's state whether or not their results are kept).
+	const f = "consensus/cometbft/abci.proposalState.resultsDeliverTx"
+	c.WhoMayStore(ix, "C01.cache", f, []string{
+		"consensus/cometbft/abci.(*proposalState).setResults", "consensus/cometbft/abci.(*proposalState).reset",
+		"consensus/cometbft/abci.(*abciMux).DeliverTx", "consensus/cometbft/abci.(*abciMux).PrepareProposal",
+	}, "the cached transaction results of a proposal are written only where they are set as a whole, consumed in order, reset or extended by the system transactions")
+	if fn := c.needFn("C01.cache", "consensus/cometbft/abci.(*abciMux).PrepareProposal"); fn != nil {
+		ok, nst := true, 0
+		site := c.P.Pos(fn.Pos())
+		for _, s := range ix.FieldStores[f] {
+			if s.Fn != fn {
+				continue
+			}
+			nst++
+			st := s.In.(*ssa.Store)
+			grows := false
+			if call, isCall := st.Val.(*ssa.Call); isCall {
+				if b, isB := call.Call.Value.(*ssa.Builtin); isB && b.Name() == "append" && len(call.Call.Args) > 0 && loadsField(call.Call.Args[0], "resultsDeliverTx") {
+					grows = true
+				}
+			}
+			if !grows {
+				ok = false
+				site = c.P.InstrPos(st)
+			}
+		}
+		c.Check(ok && nst > 0, "C01.cache", fname(fn)+":the cached results only grow (system transaction results appended)", site, "every store in PrepareProposal appends to the current results", "PrepareProposal replaces the cached results of the executed proposal by something other than the current results plus appended ones: the proposer's block (and the state root in its metadata, computed after executing every transaction) no longer corresponds to the transaction list it proposes, and every other validator rejects it")
+	}
+}
+
+// c09Round4 (written after seeds C09r4/11 and 12 were missed by C09).
+func c09Round4(c *Ctx) {
+	// (a) seed 12 was reported by C01 only.
+	resetProposalRule(c, "C09.exec")
+	// (b) seed 11: nothing that carries a signer's nonce is kept in the per-block context. The block context lives
+	// across all transactions of a block; a copy of an account put there in BeginBlock and written back in EndBlock
+	// undoes the nonce advances of that account's transactions in the block, and the same signed bytes execute again.
+	n := 0
+	bad := 0
+	for _, fn := range c.P.ModFuncs {
+		if fn.Blocks == nil {
+			continue
+		}
+		for _, call := range callsIn(fn) {
+			if calleeName(call) != "consensus/cometbft/api.(*BlockContext).Set" {
+				continue
+			}
+			n++
+			args := allArgs(call)
+			v := args[len(args)-1]
+			if mi, ok := v.(*ssa.MakeInterface); ok {
+				v = mi.X
+			}
+			if carriesLedger(v.Type(), 0) {
+				bad++
+				c.Fail("C09.nonce", fname(fn)+":no account state is kept in the block context", c.P.InstrPos(call), "a value of type "+typeStr(v.Type())+" (it contains a staking account) is stored in the per-block context: a copy taken before the block's transactions and written back after them undoes their nonce advances (and balance changes) — the same signed transaction can then be executed again")
+			}
+		}
+	}
+	if bad == 0 {
+		c.OK("C09.nonce", "block context:no account state is kept in the block context", "", itoa(n)+" BlockContext.Set call sites, none stores a value containing a staking account")
+	}
+	c.Floor("C09.nonce", n, 1, "BlockContext.Set call sites")
+}
+
+// carriesLedger: the type is, points to or contains a staking account (general or escrow).
+func carriesLedger(t types.Type, d int) bool {
+	if d > 4 {
+		return false
+	}
+	switch n := namedOf(derefType(t)); n {
+	case "staking/api.Account", "staking/api.GeneralAccount", "staking/api.EscrowAccount":
+		return true
+	}
+	switch u := derefType(t).Underlying().(type) {
+	case *types.Struct:
+		for i := 0; i < u.NumFields(); i++ {
+			if carriesLedger(u.Field(i).Type(), d+1) {
+				return true
+			}
+		}
+	case *types.Slice:
+		return carriesLedger(u.Elem(), d+1)
+	case *types.Map:
+		return carriesLedger(u.Elem(), d+1)
+	}
+	return false
+}
